@@ -3,9 +3,11 @@ package props
 import (
 	"bytes"
 	"fmt"
+	"io"
 	"math"
 	"strconv"
 
+	"github.com/ipld/go-ipld-prime/codec"
 	"github.com/ipld/go-ipld-prime/codec/dagjson"
 	"github.com/ipld/go-ipld-prime/datamodel"
 	"github.com/ipld/go-ipld-prime/multicodec"
@@ -46,7 +48,23 @@ var c04Keys = []string{"/", "bytes", "Ａ", "😀", "", "𐀀", "￿", "퟿",
 func c04NearReserved(r *fw.RNG) model.Val {
 	inner := model.Gen(r, model.GenOpts{MaxDepth: 2, MaxWidth: 3, Links: true, AvoidJSONReserved: true})
 	str := model.String(model.GenString(r, false))
-	switch r.Intn(8) {
+	switch r.Intn(11) {
+	case 8: // the exact bytes shape under "/", but the outer map has further entries (before and/or after "/")
+		es := []model.Entry{model.E("/", model.Map(model.E("bytes", str)))}
+		if r.Bool() {
+			es = append(es, model.E([]string{"z", "0", "a", "~", "bytes"}[r.Intn(5)], inner))
+		}
+		if r.Bool() || len(es) == 1 {
+			es = append(es, model.E([]string{"!", "#", " ", "", "."}[r.Intn(5)], model.GenScalar(r, model.GenOpts{Links: true})))
+		}
+		if r.Bool() {
+			es[0], es[len(es)-1] = es[len(es)-1], es[0]
+		}
+		return model.Val{K: model.KMap, M: es}
+	case 9: // a link-shaped string under "/" with further entries after it
+		return model.Map(model.E("/", model.String("bafkqaaa")), model.E("zz", inner), model.E("zzz", str))
+	case 10: // the exact bytes shape one level down inside a multi-entry map, followed by more entries
+		return model.Map(model.E("a", model.Map(model.E("/", model.Map(model.E("bytes", str))), model.E("b", inner), model.E("c", str))), model.E("b", model.List(inner, str)))
 	case 0: // "/" mapped to a non-string
 		for inner.K == model.KString {
 			inner = model.Int(1)
@@ -114,6 +132,12 @@ func (c04) RunCase(c *fw.Ctx, rng *fw.RNG, batch, i int) {
 	default:
 		v = model.Gen(rng, c04Opts)
 	}
+	c04CheckValue(c, rng, v, mode, i)
+}
+
+// c04CheckValue runs every C04 monitor on one value of the property's domain (also called by the corpus
+// replay and the fuzz target, which obtain their values from decoded DAG-JSON text).
+func c04CheckValue(c *fw.Ctx, rng *fw.RNG, v model.Val, mode string, i int) {
 	reserved := false
 	v.Walk(func(x model.Val) {
 		if model.IsJSONReserved(x) {
@@ -128,6 +152,12 @@ func (c04) RunCase(c *fw.Ctx, rng *fw.RNG, batch, i int) {
 	c.Seen(v.Hash(), st.MultiKeyMaps > 0 || st.Floats > 0 || st.Links > 0 || v.K == model.KBytes)
 	sorted := model.SortKeys(v, model.BytewiseLess)
 
+	// failed encodes before the real ones: an encode that fails midway (a value the codec refuses late in a
+	// list or map, a writer that fails) must leave nothing behind that changes a later encode (round-3 seed
+	// C04-9: a pooled encoder handed back dirty).
+	if i%3 == 0 {
+		c04FailedEncodes(c, rng)
+	}
 	// canonical text: encoding of the plainly built, sorted value
 	canonNode, err := build.Plain(basicnode.Prototype.Any, sorted)
 	if err != nil {
@@ -178,6 +208,9 @@ func (c04) RunCase(c *fw.Ctx, rng *fw.RNG, batch, i int) {
 		}
 	}
 	for vi, vv := range variants {
+		if vi == 1 && i%3 == 1 {
+			c04FailedEncodes(c, rng)
+		}
 		if n, err := build.With(basicnode.Prototype.Any, vv, &build.Prog{R: rng.Fork()}); err == nil {
 			enc(fmt.Sprintf("basicnode variant %d", vi), n)
 		}
@@ -327,4 +360,63 @@ func kindPairDeep(got, want model.Val) string {
 		return "map-length"
 	}
 	return want.K.String() + "-value"
+}
+
+// c04FailedEncodes runs one to three encodes that must fail: NaN / an infinity late in a list or map (DAG-JSON
+// cannot express them), through the package-level Encode, the registry's encoder and EncodeOptions, some into
+// a writer that fails after k bytes.
+func c04FailedEncodes(c *fw.Ctx, rng *fw.RNG) {
+	for k := 0; k < 1+rng.Intn(3); k++ {
+		bad := model.Float(math.NaN())
+		if rng.Bool() {
+			bad = model.Float(math.Inf(1 - 2*rng.Intn(2)))
+		}
+		var v model.Val
+		switch rng.Intn(4) {
+		case 0:
+			v = model.List(model.Float(1.5), bad)
+		case 1:
+			v = model.List(model.Int(1), model.Map(model.E("a", model.String("x")), model.E("b", bad)), model.Int(3))
+		case 2:
+			v = model.Map(model.E("a", model.List(model.Int(1), model.Int(2))), model.E("b", model.Map(model.E("c", bad))))
+		default:
+			v = model.List(model.List(model.List(model.String("deep"), bad)))
+		}
+		n := fnode.New(v)
+		var err error
+		var w io.Writer = &bytes.Buffer{}
+		if rng.Chance(1, 3) {
+			w = &failAfterWriter{left: rng.Intn(12)}
+		}
+		switch rng.Intn(3) {
+		case 0:
+			c.Guard("C04:encode-failing", func() { err = dagjson.Encode(n, w) })
+		case 1:
+			if e, lerr := multicodec.LookupEncoder(0x0129); lerr == nil {
+				c.Guard("C04:encode-failing", func() { err = e(n, w) })
+			} else {
+				err = lerr
+			}
+		default:
+			c.Guard("C04:encode-failing", func() {
+				err = dagjson.EncodeOptions{EncodeLinks: true, EncodeBytes: true, MapSortMode: codec.MapSortMode_Lexical}.Encode(n, w)
+			})
+		}
+		c.Count("failed_encodes_interleaved", 1)
+		if err == nil {
+			c.Deviate("C04:encode-accepts-nonfinite-float", fmt.Sprintf("Encode of %s returned no error", v.Dump()))
+		}
+	}
+}
+
+type failAfterWriter struct{ left int }
+
+func (w *failAfterWriter) Write(p []byte) (int, error) {
+	if len(p) <= w.left {
+		w.left -= len(p)
+		return len(p), nil
+	}
+	n := w.left
+	w.left = 0
+	return n, fmt.Errorf("injected write failure")
 }
